@@ -95,8 +95,8 @@ func (self *Decoder) CheckTrailings() error {
 		}
 	}
 
-	/* then it must be at EOF */
-	if pos == len(buf) {
+	/* then it must be at EOF (a Decode that hit EOF may have left the cursor behind the end) */
+	if pos >= len(buf) {
 		return nil
 	}
 
